@@ -32,10 +32,10 @@ def _mods():
 def _psds(d, rng, lead, D):
     cond = d.log10(0, 6)
     scale = d.log10(-6, 6) if d.bool() else 1.0
-    phi_nn = gen.hpd(rng, D, cond, scale, lead)
+    phi_nn = gen.vary(d, gen.hpd(rng, D, cond, scale, lead), 101)
     tk = d.choice(['full', 'lowrank', 'rank1'])
     if tk == 'full':
-        phi_xx = gen.hpd(rng, D, d.log10(0, 4), scale * 10 ** rng.uniform(-2, 2), lead)
+        phi_xx = gen.vary(d, gen.hpd(rng, D, d.log10(0, 4), scale * 10 ** rng.uniform(-2, 2), lead), 102)
         a = None
     else:
         r = 1 if tk == 'rank1' else d.int(1, D)
